@@ -3,7 +3,11 @@ package main
 // Level rx: the post-handshake receive paths of a real DTLCP connection.
 //
 // case:  lvl=rx path=readfrom|read suite=gcm|cbc role=server|client cfg=<Config.ReplayWindow>
-//        sent=<k> script=<item>,<item>,...
+//        sent=<k> [repoch=<n>] script=<item>,<item>,...
+//
+// repoch=<n>: before the script a hook sets the receiver's read epoch to n (the peer keeps
+// sending in epoch 1), so that authentic records meet the "older epoch" (n=2) and "newer
+// epoch" (n=0) branches; the property is not judged on such cases, only model = code.
 //
 // A real handshake is run over an in-memory datagram pipe. The sending side then protects k
 // application records (payload i = "P" + 4-byte i, sequence numbers 1..k in epoch 1) and a
@@ -111,6 +115,10 @@ func executeRx(desc string) string {
 		if _, _, err := re.ReadFrom(drain); err != nil {
 			break
 		}
+	}
+	if v, ok := hx.KV(desc, "repoch"); ok {
+		e, _ := strconv.Atoi(v)
+		dtlcp.VerifConnSetReadEpoch(rcv, uint16(e))
 	}
 	init := stateStr(rcv, true)
 
@@ -275,6 +283,13 @@ func genRx(o hx.Opts, emit func(string)) {
 	line("readfrom", "gcm", "server", 128, 101, []string{"g100", "g30", "g30", "g30"})
 	line("read", "cbc", "client", 128, 101, []string{"g100", "g30", "g30", "g30"})
 	line("readfrom", "cbc", "server", 0, 4, []string{"g2", "s1.3", "g3", "e4.2", "g4", "g1", "q", "g1"})
+
+	// 1b. the two epoch branches with authentic records: a hook moves the receiver's read epoch
+	combos(func(path, suite, role string) {
+		for _, ep := range []int{0, 2} {
+			emit(fmt.Sprintf("lvl=rx path=%s suite=%s role=%s cfg=64 sent=4 repoch=%d script=g2,g1,g2,f3,g3,g4,g1", path, suite, role, ep))
+		}
+	})
 
 	// 2. every kind of forgery at every point of a short genuine exchange (with a replay at the end)
 	base := []string{"g1", "g2", "g3"}
